@@ -80,6 +80,23 @@ def prune(interp, cond):
     s.add(z3.Not(cond))
     if s.check() == z3.unsat:
         return True
+    if interp.state.get("n_loops") and interp.state.get("prune_quantified", True):
+        # after a loop was summarised by its invariant the facts about the heap are quantified (frames, invariants):
+        # second attempt with all assumptions and E-matching (an `unsat` is sound whatever the heuristics do)
+        qs = z3.Solver()
+        qs.set("timeout", int(interp.state.get("prune_q_timeout", 1500)))
+        qs.set("auto_config", False)
+        qs.set("mbqi", False)
+        qs.add(*[B(a) for a in interp.assumptions], *interp.pc, *(ic[1] if wfv is not None else []))
+        qs.push()
+        qs.add(cond)
+        r1 = qs.check()
+        qs.pop()
+        if r1 == z3.unsat:
+            return False
+        qs.add(z3.Not(cond))
+        if qs.check() == z3.unsat:
+            return True
     return None
 
 
@@ -382,6 +399,23 @@ def flush(obs, pending, pre, instances, base, i, kind, p, sym, raised, timeout):
             obs.append(Ob(name, kind, UNDECIDED, "z3", dt, detail=f"{what}: {solver.reason_unknown()}"))
 
 
+def _consts(f):
+    """uninterpreted constants (arity 0) of Int / Bond sort occurring in f"""
+    out, seen, stack = [], set(), [f]
+    while stack:
+        e = stack.pop()
+        if e.get_id() in seen:
+            continue
+        seen.add(e.get_id())
+        if z3.is_const(e) and e.decl().kind() == z3.Z3_OP_UNINTERPRETED and (e.sort() == z3.IntSort() or e.sort() == BondS):
+            out.append(e)
+        if z3.is_quantifier(e):
+            stack.append(e.body())
+        else:
+            stack.extend(e.children())
+    return out
+
+
 def generic_instances(hyps, skolems):
     """ground instances of pattern-less single-variable universals (bounded-iteration facts over copied tables,
     whose Select-over-Lambda bodies admit no trigger) at the clause's Skolem constants"""
@@ -518,16 +552,97 @@ def apply_contract(interp, g, callee_cname, mname, contract, sym):
 
 
 # ------------------------------------------------------------------------------------------------ derivations
-def run_derivation(world, cname, contract, iter_bound=1, chg_one_slot=False):
+def invert_contract(interp, obj, args, kwargs):
+    """callee contract of _StereoMixin.invert, used at its call sites: the result has the class and atoms of self
+    and the parity sign flipped (GM.d_invert).  The real body is checked against it by verify_invert()."""
+    if args or kwargs:
+        raise PyRaise("TypeError", "invert() takes no arguments")
+    t = H.descr_term(obj)
+    cands = list(getattr(obj, "candidates", None) or [obj.cls.name])
+    return H.descr_obj(interp, GM.d_invert(t), cands)
+
+
+DESCR_CONTRACTS = {("stereodescriptors.py", "_StereoMixin.invert"): invert_contract}
+
+
+def verify_invert(obs, world, pid="C06", timeout=10000):
+    """the real _StereoMixin.invert against its contract, for every descriptor class and an arbitrary descriptor"""
+    for cname in H.ATOM_DESCR + H.BOND_DESCR:
+        it = Interp(world)
+        GM.install(it)
+
+        def thunk(interp, handles, cname=cname):
+            interp.state["heap"] = Heap("pre")
+            o, t = GM.sym_descr(interp, "self", [cname])
+            before = (o.fields["atoms"], o.fields["parity"])
+            c, m = o.cls.find("invert")
+            handles.update(t=t, defined_in=f"{c.module.relpath}:{c.name}")
+            res = interp.call_value(BoundMethod(o, m[1], c), [], {})
+            handles["res"] = res
+            handles["self_same"] = o.fields["atoms"] is before[0] and o.fields["parity"] is before[1]
+            return res
+
+        base = f"stereodescriptors.py:{cname}.invert"
+        try:
+            paths = it.run(thunk)
+        except OutOfSubset as e:
+            obs.append(Ob(f"{pid}/{base}", "proof", ERROR, detail=f"out of subset: {e}"))
+            continue
+        if not paths:
+            obs.append(Ob(f"{pid}/{base}", "proof", ERROR, detail="no paths"))
+        for i, p in enumerate(paths):
+            hd = p.handles
+            pre = list(p.assumptions) + list(p.pc)
+            if "defined_in" not in hd:
+                r_, s_, dt_ = solve(pre, timeout)  # path left before the call: must be infeasible
+                if r_ != z3.unsat:
+                    obs.append(Ob(f"{pid}/{base}/setup#path{i}", "proof", ERROR, "z3", dt_, detail="path ended before the call"))
+                continue
+            if (hd.get("defined_in"), ) != ("stereodescriptors.py:_StereoMixin",):
+                obs.append(Ob(f"{pid}/{base}/contract-applies#path{i}", "proof", FAILED, "ast", detail=f"invert is defined in {hd.get('defined_in')}, the call-site contract is stated for _StereoMixin.invert"))
+                continue
+            if p.outcome[0] == "raise":
+                r_, s_, dt_ = solve(pre, timeout)
+                obs.append(Ob(f"{pid}/{base}/does-not-raise#path{i}", "proof", DISCHARGED if r_ == z3.unsat else (FAILED if r_ == z3.sat else UNDECIDED), "z3", dt_,
+                              detail="" if r_ == z3.unsat else f"invert raised {p.outcome[1]}", witness=_model_dict(s_, {"self": hd["t"]}) if r_ == z3.sat else None))
+                continue
+            res = hd["res"]
+            ok_obj = isinstance(res, Obj) and (hasattr(res, "term") or "atoms" in res.fields)
+            if not ok_obj:
+                obs.append(Ob(f"{pid}/{base}/result-is-a-descriptor#path{i}", "proof", FAILED, "ast", detail=f"result is {type(res).__name__}"))
+                continue
+            rt = H.descr_term(res)
+            r_, s_, dt_ = solve(pre + [rt != GM.d_invert(hd["t"])], timeout)
+            obs.append(Ob(f"{pid}/{base}/result-is-the-mirror-image#path{i}", "proof", DISCHARGED if r_ == z3.unsat else (FAILED if r_ == z3.sat else UNDECIDED), "z3", dt_,
+                          detail="" if r_ == z3.unsat else "invert() does not return class, atoms and flipped parity sign of self",
+                          witness=_model_dict(s_, {"self": hd["t"], "result": rt}) if r_ == z3.sat else None))
+            obs.append(Ob(f"{pid}/{base}/self-not-modified#path{i}", "proof", DISCHARGED if hd.get("self_same") else FAILED, "ast",
+                          detail="" if hd.get("self_same") else "invert() assigned to a field of self"))
+
+
+def _model_dict(solver, terms):
+    try:
+        m = solver.model()
+        return {k: str(m.eval(v, model_completion=True)) for k, v in terms.items()}
+    except Exception:  # noqa
+        return None
+
+
+def run_derivation(world, cname, contract, iter_bound=1, chg_one_slot=False, loop_contracts=None, callee_contracts=None):
     it = Interp(world)
     GM.install(it)
     it.prune = prune
+    for key, fn in (callee_contracts or {}).items():
+        it.contracts[key] = fn
     cls = world.cls(cname)
+    from .interp import Builtin as _B
+    it.builtins["__for__"] = _B("__for__", for_hook)
 
     def thunk(interp, handles):
         interp.state["heap"] = Heap("pre")
         interp.state["iter_bound"] = iter_bound
         interp.state["chg_one_slot"] = chg_one_slot
+        interp.state["loop_contracts"] = loop_contracts
         h = heap_of(interp)
         g = GM.sym_graph(interp, cname, "g_")
         interp.assume(h.A0 >= 0)
@@ -580,10 +695,11 @@ def fresh_clauses(vR: "GM.View", A0, cname):
     return cl
 
 
-def verify_derivation(obs, world, cname, dname, contract, pid, timeout=20000, iter_bound=1, chg_one_slot=False, want=("view", "wf", "fresh", "source")):
+def verify_derivation(obs, world, cname, dname, contract, pid, timeout=20000, iter_bound=1, chg_one_slot=False, want=("view", "wf", "fresh", "source"), loop_contracts=None,
+                      callee_contracts=None):
     base = f"{REL[cname]}:{cname}.{dname}"
     try:
-        paths = run_derivation(world, cname, contract, iter_bound, chg_one_slot)
+        paths = run_derivation(world, cname, contract, iter_bound, chg_one_slot, loop_contracts, callee_contracts)
     except OutOfSubset as e:
         obs.append(Ob(f"E1/{base}", "proof", ERROR, detail=f"out of subset: {e}"))
         return
@@ -630,6 +746,14 @@ def verify_derivation(obs, world, cname, dname, contract, pid, timeout=20000, it
         def emit(pid_, clause, fs, what, skolems=()):
             pending.append((pid_, clause, fs, what, list(skolems)))
 
+        for aname, apc, aass, af in p.asserts:
+            r_, s_, dt_ = solve(list(aass) + list(apc) + [z3.Not(af)], timeout)
+            if r_ == z3.unknown:
+                r_, s_, dt_ = solve(list(aass) + list(apc) + generic_instances([B(a_) for a_ in aass], [c_ for c_ in _consts(af)]) + [z3.Not(af)], 3 * timeout)
+            obs.append(Ob(f"{pid}/{base}/{aname}#path{i}", kind, DISCHARGED if r_ == z3.unsat else (FAILED if r_ == z3.sat else UNDECIDED), "z3", dt_,
+                          detail="" if r_ == z3.unsat else "intermediate obligation fails"))
+        if p.outcome[0] == "loopstep":
+            continue
         if raised:
             emit(pid, "does-not-raise", [z3.BoolVal(True)], f"the derivation raised {p.outcome[1]}")
         else:
